@@ -297,3 +297,77 @@ Proof.
   - pose proof (commit_bounded cfg st tok amount w) as K. destruct (commit_transaction cfg st tok amount w) as [[r st'] w']. lia.
   - pose proof (cancel_bounded cfg st tok w) as K. destruct (cancel_transaction cfg st tok w) as [[r st'] w']. lia.
 Qed.
+
+(* ---------- the retry budget of the calls made of several exchanges (ClientLog.attempts: opens + refusals in the event log) ---------- *)
+From Zvt Require Import ClientLog.
+Local Strategy 1000 [consume LOOPFUEL retry_next RFUEL].
+
+Lemma single_attempts {A B} cfg q T w acc (h : A -> N -> value -> option (cres B) * A) fin fuel :
+  let '(_, w') := consume fuel cfg (start_retry q T) w acc h fin in (attempts (w_log w') <= attempts (w_log w) + 20)%nat.
+Proof. pose proof (call_attempts cfg q T w acc h fin fuel) as K. destruct (consume fuel cfg (start_retry q T) w acc h fin). exact K. Qed.
+
+Lemma set_terminal_id_attempts cfg w :
+  let '(_, w') := set_terminal_id cfg w in (attempts (w_log w') <= attempts (w_log w) + 40)%nat.
+Proof.
+  unfold set_terminal_id, get_system_info.
+  match goal with |- context [consume LOOPFUEL cfg (start_retry ?q TIMEOUT) w ?a ?h ?fin] =>
+    pose proof (single_attempts cfg q TIMEOUT w a h fin LOOPFUEL) as K; destruct (consume LOOPFUEL cfg (start_retry q TIMEOUT) w a h fin) as [[si|e] w1] end; [|lia].
+  destruct (Client.list_eqb _ _); [lia|]. destruct (digits_value _); [|lia].
+  match goal with |- context [consume LOOPFUEL cfg (start_retry ?q TIMEOUT) w1 ?a ?h ?fin] =>
+    pose proof (single_attempts cfg q TIMEOUT w1 a h fin LOOPFUEL) as K2; destruct (consume LOOPFUEL cfg (start_retry q TIMEOUT) w1 a h fin) as [r2 w2] end.
+  lia.
+Qed.
+
+Lemma end_of_day_attempts cfg st w :
+  let '(_, _, w') := end_of_day cfg st w in (attempts (w_log w') <= attempts (w_log w) + 60)%nat.
+Proof.
+  unfold end_of_day. pose proof (pending_at_most_one cfg w) as L. unfold get_pending in *.
+  match goal with |- context [consume LOOPFUEL cfg (start_retry ?q TIMEOUT) w ?a ?h ?fin] =>
+    pose proof (single_attempts cfg q TIMEOUT w a h fin LOOPFUEL) as K; destruct (consume LOOPFUEL cfg (start_retry q TIMEOUT) w a h fin) as [[pend|e] w1] end; cbn [fst] in L; [|lia].
+  assert (F : let '(_, w2) := fold_left (fun acc p => match acc with
+                                               | (ROk _, w) => cancel_by_receipt cfg p w
+                                               | other => other end) pend (ROk tt, w1) in
+              (attempts (w_log w2) <= attempts (w_log w1) + 20)%nat).
+  { destruct pend as [|p [|p2 pend]]; [cbn; lia| |cbn in L; lia].
+    cbn [fold_left]. unfold cancel_by_receipt.
+    match goal with |- context [consume LOOPFUEL cfg (start_retry ?q TIMEOUT) w1 ?a ?h ?fin] =>
+      pose proof (single_attempts cfg q TIMEOUT w1 a h fin LOOPFUEL) as K1; destruct (consume LOOPFUEL cfg (start_retry q TIMEOUT) w1 a h fin) as [r2 w2] end. exact K1. }
+  destruct (fold_left _ pend (ROk tt, w1)) as [[u|e] w2]; [|lia].
+  match goal with |- context [consume LOOPFUEL cfg (start_retry ?q TIMEOUT) w2 ?a ?h ?fin] =>
+    pose proof (single_attempts cfg q TIMEOUT w2 a h fin LOOPFUEL) as K3; destruct (consume LOOPFUEL cfg (start_retry q TIMEOUT) w2 a h fin) as [r3 w3] end.
+  lia.
+Qed.
+
+(* EVERY public operation connects at most 140 times (configure: up to seven exchanges of 20 attempts each) *)
+Theorem every_call_attempts_bounded cfg st o w :
+  let '(_, _, w') := run_op cfg st o w in (attempts (w_log w') <= attempts (w_log w) + 140)%nat.
+Proof.
+  destruct o; cbn [run_op].
+  - unfold configure. pose proof (set_terminal_id_attempts cfg w) as K1.
+    destruct (set_terminal_id cfg w) as [[u|e] w1]; [|lia]. unfold initialize.
+    match goal with |- context [consume LOOPFUEL cfg (start_retry ?q TIMEOUT) w1 ?a ?h ?fin] =>
+      pose proof (single_attempts cfg q TIMEOUT w1 a h fin LOOPFUEL) as K2; destruct (consume LOOPFUEL cfg (start_retry q TIMEOUT) w1 a h fin) as [[u2|e] w2] end; [|lia].
+    pose proof (end_of_day_attempts cfg st w2) as K3. destruct (end_of_day cfg st w2) as [[r3 st3] w3]. lia.
+  - unfold read_card.
+    match goal with |- context [consume LOOPFUEL cfg (start_retry ?q ?T) w ?a ?h ?fin] =>
+      pose proof (single_attempts cfg q T w a h fin LOOPFUEL) as K; destruct (consume LOOPFUEL cfg (start_retry q T) w a h fin) as [r w'] end. lia.
+  - unfold begin_transaction. destruct (_ =? _); [lia|]. destruct (assoc_tok tok (s_txs st)); [lia|].
+    match goal with |- context [consume LOOPFUEL cfg (start_retry ?q TIMEOUT) w ?a ?h ?fin] =>
+      pose proof (single_attempts cfg q TIMEOUT w a h fin LOOPFUEL) as K; destruct (consume LOOPFUEL cfg (start_retry q TIMEOUT) w a h fin) as [[rn|e] w1] end; lia.
+  - unfold commit_transaction. destruct (assoc_tok tok (s_txs st)) as [rn|]; [|lia].
+    match goal with |- context [consume LOOPFUEL cfg (start_retry ?q TIMEOUT) w ?a ?h ?fin] =>
+      pose proof (single_attempts cfg q TIMEOUT w a h fin LOOPFUEL) as K; destruct (consume LOOPFUEL cfg (start_retry q TIMEOUT) w a h fin) as [[si|e] w1] end; [|lia].
+    assert (K2 : let '(_, _, w2) := match s_txs {| s_txs := remove_tok tok (s_txs st); s_max := s_max st |} with
+                          | [] => end_of_day cfg {| s_txs := remove_tok tok (s_txs st); s_max := s_max st |} w1
+                          | _ => (ROk tt, {| s_txs := remove_tok tok (s_txs st); s_max := s_max st |}, w1)
+                          end in (attempts (w_log w2) <= attempts (w_log w1) + 60)%nat).
+    { destruct (s_txs _); [apply end_of_day_attempts|lia]. }
+    destruct (match s_txs _ with [] => _ | _ => _ end) as [[r2 st2] w2].
+    destruct r2; [|lia]. destruct si; lia.
+  - unfold cancel_transaction. destruct (assoc_tok tok (s_txs st)) as [rn|]; [|lia]. unfold cancel_by_receipt.
+    match goal with |- context [consume LOOPFUEL cfg (start_retry ?q TIMEOUT) w ?a ?h ?fin] =>
+      pose proof (single_attempts cfg q TIMEOUT w a h fin LOOPFUEL) as K; destruct (consume LOOPFUEL cfg (start_retry q TIMEOUT) w a h fin) as [[u|e] w1] end; [|lia].
+    destruct (s_txs _); [|lia].
+    pose proof (end_of_day_attempts cfg {| s_txs := remove_tok tok (s_txs st); s_max := s_max st |} w1) as K2.
+    destruct (end_of_day cfg _ w1) as [[r2 st2] w2]. lia.
+Qed.
